@@ -11,6 +11,7 @@ import GormModel.Props.C08
 import GormModel.Gen.Pipelines
 import GormModel.Gen.GuardFacts
 import GormModel.Gen.GuardWhereFacts
+import GormModel.Lemmas.DeleteKeys
 namespace Gorm
 
 /-- a chain call contributes a condition iff its form is effective -/
